@@ -1,5 +1,7 @@
 package main
 
+import "math"
+
 func init() {
 	gens["C05"] = genC05
 	exampleCases["Conv"] = &Case{Op: "Conv", Attrs: []Attr{{Name: "strides", Type: "ints", Ints: []int64{2, 1}}, {Name: "pads", Type: "ints", Ints: []int64{1, 0, 1, 0}}},
@@ -94,4 +96,34 @@ func genC05(e *emitter, tier string) {
 	e.emit(opCase("refuse", "Conv", nil, []*TJ{iota1("f32", 2, 2), smallT("f32", []int{1, 2}, 2)}, nil))
 	e.emit(opCase("refuse", "Conv", []Attr{{Name: "foo", Type: "i", I: 2}}, []*TJ{iota1("f32", 1, 1, 4), smallT("f32", []int{1, 1, 2}, 2)}, nil))
 	e.emit(opCase("refuse", "Conv", nil, []*TJ{iota1("i32", 1, 1, 4), smallT("i32", []int{1, 1, 2}, 2)}, nil))
+	// float operands carried bit for bit: infinities and NaN under non-zero and under zero weights (first,
+	// middle and last tap of a window), sums that overflow float32, fractional data; judged against the direct
+	// convolution in float64 with the dot-product bound of Theorems/C04b
+	{
+		inf, nan := math.Inf(1), math.NaN()
+		imgs := [][]float64{
+			{1, inf, 2, 3, 4, 5, 6, 7, 8, 9, 10, 11},
+			{1, 2, 3, 4, 5, -inf, 6, 7, 8, 9, 10, inf},
+			{nan, 2, 3, 4, 5, 6, 7, 8, 9, 10, 11, 12},
+			{3e38, 3e38, 1, 1, -3e38, -3e38, 2, 2, 3e38, -3e38, 1, 0},
+			{0.1, 0.2, 0.3, 0.4, 0.5, 0.6, 0.7, 0.8, 0.9, 1.1, 1.2, 1.3},
+			{1e-40, 2e-40, 1e30, -1e30, 3, 1e-3, 7, 1e20, -1e20, 5, 6, 1},
+		}
+		kernels := [][]float64{{1, 1, 1, 1}, {1, -1, 0.5, 2}, {0, 1, 1, 0}, {0.3, 0.7, -0.2, 1.9}}
+		for _, dt := range []string{"f32", "f64"} {
+			for ii, img := range imgs {
+				for ki, k := range kernels {
+					x := fT(dt, []int{1, 1, 3, 4}, img)
+					w := fT(dt, []int{1, 1, 2, 2}, k)
+					e.emit(opCase("special", "Conv", nil, []*TJ{x, w}, nil))
+					if (ii+ki)%2 == 0 {
+						e.emit(opCase("special", "Conv", []Attr{{Name: "pads", Type: "ints", Ints: []int64{1, 0, 0, 1}}, {Name: "strides", Type: "ints", Ints: []int64{1, 2}}},
+							[]*TJ{x, w, fT(dt, []int{1}, []float64{0.5})}, nil))
+						// two channels, two filters, 1-D
+						e.emit(opCase("special", "Conv", []Attr{{Name: "dilations", Type: "ints", Ints: []int64{2}}}, []*TJ{fT(dt, []int{1, 2, 6}, img), fT(dt, []int{2, 2, 2}, append(append([]float64{}, k...), k[2], k[3], k[0], k[1]))}, nil))
+					}
+				}
+			}
+		}
+	}
 }
